@@ -130,8 +130,14 @@ func c11Precedes(feature string, a, b *c11Pod) bool {
 	return a.labelPriority() <= b.labelPriority() && sub(a) > sub(b)
 }
 
-func TestVerifC11MemRounds(t *testing.T) {
-	rec := vk.New(t, "C11", "memRounds")
+func TestVerifC11MemRounds(t *testing.T) { c11RunRounds(t, "memRounds", false) }
+
+// the same histories, with spec.terminationGracePeriodSeconds set on the pods (nil / 0 / small / large): what the evictor
+// remembers about a victim must not depend on it
+func TestVerifC11MemRoundsGrace(t *testing.T) { c11RunRounds(t, "memRoundsGrace", true) }
+
+func c11RunRounds(t *testing.T, unit string, withGrace bool) {
+	rec := vk.New(t, "C11", unit)
 	savedFactory := metriccache.DefaultAggregateResultFactory
 	feats := []featuregate.Feature{features.BEMemoryEvict, features.MemoryAllocatableEvict, features.MemoryEvict}
 	savedGates := map[string]bool{}
@@ -148,6 +154,20 @@ func TestVerifC11MemRounds(t *testing.T) {
 		defer c.End()
 		s := c11GenScene(t)
 		var history []string
+		grace := map[int]int64{} // pod index -> terminationGracePeriodSeconds (absent: field unset)
+		if withGrace {
+			var gdesc []string
+			for _, p := range s.pods {
+				g := rapid.SampledFrom([]int64{-1, 0, 0, 30, 1, 0, 3600}).Draw(t, "terminationGracePeriodSeconds")
+				if g >= 0 {
+					grace[p.Idx] = g
+					v := g
+					p.pod.Spec.TerminationGracePeriodSeconds = &v
+					gdesc = append(gdesc, fmt.Sprintf("%s:%d", p.Name, g))
+				}
+			}
+			history = append(history, "spec.terminationGracePeriodSeconds: "+strings.Join(gdesc, " "))
+		}
 		// most cases: moderate, lasting memory pressure, so that the first round evicts a pod or two and leaves candidates
 		if rapid.IntRange(0, 3).Draw(t, "moderatePressure") > 0 {
 			on := true
@@ -251,6 +271,7 @@ func TestVerifC11MemRounds(t *testing.T) {
 		nRounds := rapid.IntRange(2, 3).Draw(t, "rounds")
 		sawTerminating, sawStale, sawGone, sawPendingCoversNoEvict, sawEvictBeyondPending, sawShape, sawFail, sawRetry := false, false, false, false, false, false, false, false
 		var deferred []func() bool
+		sawZeroGracePending, sawGracePending := false, false
 		for round := 1; round <= nRounds; round++ {
 			if round > 1 {
 				// what became of the earlier victims
@@ -354,6 +375,13 @@ func TestVerifC11MemRounds(t *testing.T) {
 			for _, p := range s.pods {
 				if evictedEarlier[p.Idx] && state[p.Idx] != stGone {
 					pending = append(pending, p)
+					if g, ok := grace[p.Idx]; ok && len(tasks) > 0 {
+						if g == 0 {
+							sawZeroGracePending = true
+						} else {
+							sawGracePending = true
+						}
+					}
 				}
 			}
 			// the shape this unit is about: a positive target, an earlier victim still present and allowed for the task,
@@ -555,7 +583,9 @@ func TestVerifC11MemRounds(t *testing.T) {
 		c.ClassIf(sawRetry, "pod-retried-after-failed-eviction")
 		c.ClassIf(len(deferred) > 0, "evicted-although-pending-victims-later-in-order-cover-target")
 		c.Class(fmt.Sprintf("rounds:%d", nRounds))
-		if sawShape && sawTerminating {
+		c.ClassIf(sawZeroGracePending, "later-round-with-target:earlier-victim-with-grace-period-0-still-present")
+		c.ClassIf(sawGracePending, "later-round-with-target:earlier-victim-with-grace-period>0-still-present")
+		if (!withGrace && sawShape && sawTerminating) || (withGrace && sawZeroGracePending) {
 			c.NonTrivial(describe())
 		}
 		if c.WantSample() {
